@@ -505,6 +505,16 @@ func TestTaxEnum(t *testing.T) {
 	shard, n := stats.Shard()
 	per := stats.EnvInt("C17_TAX_PER_BASE", 4000)
 	bases := []string{"0", "9000", "9609000", "246400000", "1000000000000000000000000", "4000000000000000000000000000", "340282366920938463463374607431768"}
+	// totals whose high 64-bit word (or that of the first guess total*1000/961) crosses a small value, the siafund count
+	// 10000 and its neighbours, or a power of two: the inversion works on 64-bit words
+	for _, h := range []uint64{1, 2, 3, 9999, 10000, 10001, 65535, 65536, 1<<32 - 1, 1 << 32} {
+		edge := new(big.Int).Lsh(new(big.Int).SetUint64(h), 64)
+		half := big.NewInt(int64(per / 2))
+		bases = append(bases, new(big.Int).Sub(edge, half).String())
+		inv := new(big.Int).Mul(edge, big.NewInt(961))
+		inv.Quo(inv, big.NewInt(1000))
+		bases = append(bases, new(big.Int).Sub(inv, half).String())
+	}
 	cnt := 0
 	for bi, b := range bases {
 		if bi%n != shard {
